@@ -7,6 +7,7 @@
   object).  `lparse` is the cache-free engine - the definition C01/C02/C03 speak about.
 -/
 import Abnf.CacheWorld
+import Abnf.Theorems.C12
 namespace Abnf.C08
 
 /-- results of the request events of a history -/
@@ -56,6 +57,38 @@ theorem cache_transparent (G : Grammar) (repOf : Nat → Option (Nat × Option N
     | evict cid keep =>
       simp only [runHistory, stepEv] at hp
       exact ih _ (winv_evictSome hinv cid keep) hreq' p hp
+
+/-- **Unconditional form** (with C12): on a well-formed grammar (certificate `WfCert`: no left recursion, min ≤ max) with the
+explicit recursion depth `fuelFor` for the longest request, no side condition about fuel is left - every request of
+every history on every rule at every offset `0 ≤ i ≤ |s|` returns exactly the cache-free engine's answer. -/
+theorem cache_transparent_total {G : Grammar} {N : Nat → Bool} {rank : Nat → Nat} {K D : Nat} (hw : WfCert G N rank K D)
+    (repOf : Nat → Option (Nat × Option Nat × Expr)) (hG : GCidsOk repOf G)
+    (f : Nat) (evs : List Ev) (st : LState) (hinv : WInv (GoodVal G repOf) st)
+    (hreq : ∀ s e i, Ev.req s e i ∈ evs → ∃ r, e = .ref r ∧ i ≤ s.length ∧ fuelFor K D (s.length - i) K 0 ≤ f) :
+    ∀ p ∈ runHistory G f st evs, ∃ s e i, p.1 = Ev.req s e i ∧ p.2 = lparse G f s e i ∧ p.2 ≠ .oof := by
+  have hreq' : ∀ s e i, Ev.req s e i ∈ evs → CidsOk repOf e ∧ lparse G f s e i ≠ .oof := by
+    intro s e i h
+    obtain ⟨r, rfl, hi, hf⟩ := hreq s e i h
+    exact ⟨CidsOk.ref, (C12.terminates hw s r i hi f hf).1⟩
+  intro p hp
+  obtain ⟨s, e, i, h1, h2⟩ := cache_transparent G repOf hG f evs st hinv hreq' p hp
+  refine ⟨s, e, i, h1, h2, ?_⟩
+  have hmem : Ev.req s e i ∈ evs := by
+    have : ∀ (evs : List Ev) (st : LState), p ∈ runHistory G f st evs → p.1 ∈ evs := by
+      intro evs
+      induction evs with
+      | nil => intro st h; simp [runHistory] at h
+      | cons ev evs ih =>
+        intro st h
+        simp only [runHistory] at h
+        split at h
+        · rename_i st' r heq
+          rcases List.mem_cons.mp h with h | h
+          · rw [h]; exact List.mem_cons_self
+          · exact List.mem_cons_of_mem _ (ih _ h)
+        · exact List.mem_cons_of_mem _ (ih _ h)
+    rw [← h1]; exact this evs st hp
+  rw [h2]; exact (hreq' s e i hmem).2
 
 /-- empty caches, with any limits, are a sound starting state -/
 theorem fresh_caches_sound (G : Grammar) (repOf : Nat → Option (Nat × Option Nat × Expr)) (g : Nat) (limit : Nat → Option Nat) :
